@@ -257,6 +257,14 @@ func runC16B(args []string) error {
 						disk["main.bin"] = nil
 						desc = "moved to other name"
 					}
+					if idx%4 == 1 && disk["main.bin"] != nil {
+						// a second file edited in the same state: an insertion inside the other file's last FULL slice,
+						// so that its short final slice survives, displaced, at the new end of file
+						q := s + rng.Intn(s)
+						ins := []byte{byte(rng.Intn(256)), byte(rng.Intn(256))}
+						disk["other.bin"] = append(append(append([]byte{}, other[:q]...), ins...), other[q:]...)
+						desc += fmt.Sprintf(" + other insert@%d+2", q)
+					}
 					idx++
 					if err := c16bCase(c, lg, idx, names, prot, disk, s, desc, rng); err != nil {
 						return err
